@@ -123,6 +123,10 @@ def run(ck: Check) -> int:
                domain.LambdaType.from_python_object, domain.LambdaType.to_python_object, ContractData.encode, ContractData.decode,
                ContractEntrypoint.encode, ContractEntrypoint.decode, ParameterSection.from_python_object, ParameterSection.to_python_object):
         ck.function(fn)
+
+    from props.C12_P import run_P
+    run_P(ck)
+
     from bounded.C11_validate import validate
     nval, problems = validate()
     if problems:
@@ -163,7 +167,14 @@ def run(ck: Check) -> int:
         byw[w] = byw.get(w, 0) + n
     ck.extra['failing_witness_classes'] = dict(sorted(byw.items()))
     ck.exhaustive = False
-    return ck.finish('exploration',
+    return ck.finish('other',
+                     'P/S (props/C12_P.py): structural induction over the type on the real ASTs for T.from_python_object(v.to_python_object()) == v — '
+                     'base cases with all values symbolic (int, nat, mutez, timestamp, bool, unit, string, bytes, big_map id); induction step over opaque '
+                     'components under the round-trip hypothesis for option (component not an option), or, list / set / map / big_map literals with '
+                     'k <= 3 (sets and dicts in every iteration order), and through the ADT layer (get_type_layout, get_flat_values, wrap_pair, wrap_or) for '
+                     'every pair tree shape with <= 5 components and every union tree shape with <= 4 variants under every subset of named components '
+                     '(%field / :type / duplicate / generated-name-clashing names, annotated inner nodes, comparable form, enums): documented layout '
+                     '(names -> dict with distinct keys, no names -> tuple) and the same components in the same places; '
                      'R (bounded): to/from Python-object round trip, name uniqueness/stability, ContractData and ContractEntrypoint '
                      'encode/decode identities evaluated on the real functions for every enumerated case; equality judged by structural '
                      'observation against an independent value model, encodings read by an independent Micheline reader and the Tezos entrypoint rules')
